@@ -360,7 +360,17 @@ def classify_failure(case):
 
 
 def run(ctx):
-    proved = common.proof_stage(ctx)
+    proved = common.proof_stage(ctx, extra_targets=("theories/Props/C16Findings.vo",))
+    if proved:
+        # the second property file (the per-kind theorems and examples about the five finding classes)
+        rep2 = common.props_report("C16Findings")
+        ctx.cov["obligations"] += len(rep2["theorems"])
+        ctx.cov["discharged"] += len(rep2["closed"]) if rep2["ok"] else 0
+        ctx.cov["theorems"] = ctx.cov.get("theorems", []) + rep2["theorems"]
+        if not rep2["ok"]:
+            proved = False
+            ctx.proof_failure = dict(kind="proof-obligation", target="theories/Props/C16Findings.vo", open_assumptions=rep2.get("open"),
+                                     log_tail=(rep2.get("log") or "")[-3000:])
     exe, log = common.build_server()
     if exe is None:
         ctx.violation(dict(kind="build-failure", what="lsp4spl does not build", log=log[-3000:]), no_input=True)
